@@ -586,3 +586,50 @@ func HarnessC08InstrumentCallbacks() {
 	}
 	vndReach("cycles-done")
 }
+
+// C12.views (observable): the same for an observable counter whose callback
+// observes one value per cycle: whatever the view (rename, histogram
+// re-aggregation, attribute filter), the reported total is the observed value
+func HarnessC12ViewsObservable() {
+	var views []View
+	vk := vndChoice(5)
+	switch vk {
+	case 1:
+		views = []View{NewView(Instrument{Name: "oc"}, Stream{Name: "x"})}
+	case 2:
+		views = []View{NewView(Instrument{Name: "oc"}, Stream{Aggregation: AggregationExplicitBucketHistogram{Boundaries: []float64{0, 10}}})}
+	case 3:
+		views = []View{NewView(Instrument{Name: "oc"}, Stream{AttributeFilter: attribute.NewAllowKeysFilter("k")})}
+	case 4:
+		views = []View{NewView(Instrument{Name: "oc"}, Stream{Aggregation: AggregationDrop{}})}
+	}
+	r := NewManualReader()
+	mp := pipeProvider(views, r)
+	var cur int64
+	_, err := mp.Meter("m").Int64ObservableCounter("oc", metric.WithInt64Callback(func(_ context.Context, o metric.Int64Observer) error {
+		o.Observe(cur, metric.WithAttributeSet(pipeSets[0]))
+		return nil
+	}))
+	vndAssert(err == nil, "instrument-created")
+	cur = int64(vndInt(1, 1000))
+	var rm metricdata.ResourceMetrics
+	vndAssert(r.Collect(context.Background(), &rm) == nil, "collect-no-error")
+	vndReach("collected")
+	got := 0
+	for _, sm := range rm.ScopeMetrics {
+		for _, m := range sm.Metrics {
+			got++
+			total, points, ok := pipeTotal(m)
+			vndAssert(ok, "reported-stream-is-a-sum-or-histogram")
+			vndAssert(points == 1, "one-point-for-the-one-observed-set")
+			vndAssert(total == cur, "every-stream-carries-every-measurement-exactly-once")
+			_, isHist := m.Data.(metricdata.Histogram[int64])
+			vndAssert(isHist == (vk == 2), "aggregation-as-asked-for")
+		}
+	}
+	if vk == 4 {
+		vndAssert(got == 0, "drop-aggregation-reports-nothing")
+	} else {
+		vndAssert(got == 1, "one-stream-per-distinct-view-result")
+	}
+}
